@@ -73,9 +73,11 @@ class C08(Check):
             nv = rng.choice([1, 2])
             g = fml.Gen(rng, nvars=nv, untimed=(rng.random() < 0.3), unbounded_future=False, prevnext=(rng.random() < 0.4), maxb=3)
             f = g.formula(rng.choice([1, 2, 2, 3]))
+            if rng.random() < 0.4:
+                f = fml.add_unless(rng, f, 0.7)
             if i < 16:
                 f = [('oncet', 1, 2, P), ('histt', 0, 3, P), ('evt', 1, 2, P), ('alwt', 2, 2, P), ('sincet', 0, 2, P, ('not', P)),
-                     ('untilt', 1, 3, P, ('not', P)), ('and', ('next', P), ('oncet', 0, 1, P)), ('or', ('evt', 1, 2, P), ('snext', ('next', P)))][i % 8]
+                     ('untilt', 1, 3, P, ('not', P)), ('and', ('next', P), ('oncet', 0, 1, P)), ('unlesst', 0, 3, P, ('not', P))][i % 8]
             if not (fml.ops(f) & (fml.TUN | fml.TBIN)) or fml.size(f) > 30:
                 continue
             nv = need_vars(f, nv)
